@@ -200,7 +200,7 @@ static void check_pad(void)
 }
 
 typedef struct { int op; size_t plen; } item;
-static item ITEMS[4000]; static int nitems;
+static item ITEMS[20000]; static int nitems;
 static void do_item(long k) { check_item(&OPS[ITEMS[k].op], ITEMS[k].plen); }
 static void fin(void) { vf_stat("evaluations", n_eval); vf_stat("nontrivial", n_nontriv); vf_stat("operation_shapes", n_ops); vf_stat("max_points", n_events_max); n_eval = n_nontriv = n_ops = 0; }
 
@@ -225,6 +225,8 @@ int main(void)
     poly_cases_load();
     if (pc_n && !thorough) for (i = 0; i < NOPS; i++) if (OPS[i].run == r_poly) { ITEMS[nitems].op = i; ITEMS[nitems++].plen = 80; ITEMS[nitems].op = i; ITEMS[nitems++].plen = 208; }   /* the other two lengths of the built-backwards cases */
     if (pc_n && thorough) for (i = 0; i < NOPS; i++) if (OPS[i].run == r_poly) { ITEMS[nitems].op = i; ITEMS[nitems++].plen = 208; }
+    if (nitems > 19990) { fprintf(stderr, "item table too small\n"); return 2; }
+    printf("INFO items %d\n", nitems);
     vf_parallel(16, 0, nitems, do_item, fin);
     check_pad(); fin();
     vf_sample("crypto_scalarmult(X25519): base secret R1 vs R1 with bit 137 flipped, same public point: edge/load/store trace hashes must be equal");
